@@ -25,6 +25,10 @@ CLAIMS = {
          "MultiReg = two flip-flops as in migen.sim (no metastability model); the combined three-stream run is capped (reported as capped, not exhaustive)", "explicit-state BFS over all clock interleavings of the elaborated multi-clock netlist"),
  "C09": (MC, "complete reachable graphs of the real AXI bridge per burst scenario (FIXED/INCR/WRAP, narrow/unaligned, 1-3 writes + 1-3 reads in flight, two IDs, partial strobes, base address, with and without read-modify-write) under every 5-channel timing, cmd.ready stall and memory latency; AXI-level reference memory, B/R protocol rules, final-memory comparison, drain liveness",
          "scenario list is fixed (bursts are not enumerated exhaustively); two read-modify-write findings fingerprinted by history flags", BFS),
+ "C14": (MC, "BFS through the real BIST generator then checker on one responder memory: configure choice (base x power-of-two range x length x sequential/random data/address) -> generator run under free or deviation-bounded memory timing -> every subset of corrupted sequence positions (length <= 8) -> checker run; independent PRBS31/counter sequence model (self-checked against the real generator module), in-range writes/reads, exact error count over the final memory image, termination",
+         "ranges <= 8 words, lengths <= 16 words, widths 8/32/64 + AXI variant; known byte-mask finding fingerprinted", "explicit-state BFS of the elaborated netlist + exhaustive fault-set enumeration"),
+ "C15": (MC, "exhaustive fault enumeration through the real ECC port netlist: every (data word, flip set) of the grid (8-bit lanes: 256 words quick-subsampled/thorough-all x 1+13+78 flip sets; wider lanes: all flip sets x spanning data set) written, corrupted in memory and read back; plus BFS over all handshake timings for a small case list incl. partial byte enables; SECDED oracle written from the definition",
+         "wider lanes rely on the GF(2)-affinity argument for data; CSR shims process-local", "exhaustive fault enumeration through the elaborated netlist + explicit-state BFS over handshake timing"),
  "C16": (EX, "exhaustive enumeration of every library module class x speedgrade x legal rate x controller-clock grid (and SPD images) through the real SDRAMModule constructor against an exact-rational oracle of the safety inequalities",
          "datasheet = the library class's numbers; clock grid 10-400 MHz (5 MHz quick, 1 MHz + boundary frequencies thorough)", "exhaustive input/configuration enumeration against an independent exact-rational oracle"),
  "C17": (EX, "exhaustive enumeration of memtype x CL/CWL x nphases x module-derived timings x clock grid x electrical/RDIMM/clam-shell options through the real init generators, judged by independent JEDEC mode-register decoders (BL/CL/CWL equality, write-recovery bounds, field overlap/overflow, C vs Python rendering)",
